@@ -47,7 +47,7 @@ META = {
     "trusted_base": ["sympy.polys"],
     "explanation": "Relational contracts over pairs of runs of the real code on symbolic data; each pair is compared by exact normal form. "
                    "Bounded in size, complete in the data.",
-    "bounded_note": "quick: core N <= 5, p <= 2; psd N = 4, p <= 2, NFFT in {3, 4}.  thorough adds NFFT = 6, N = 5 and order 2 for every class",
+    "bounded_note": "quick: core N = 4, order 1; class glue order 2, NFFT in {3, 4, 6}.  thorough: core N = 5 for CORRELATION / arcovar / modcovar; glue orders 2, 3, NFFT in {3, 4, 6, 8, 12}",
 }
 
 
@@ -105,7 +105,7 @@ def core_task(est, transform, N, p):
 
     def run(tc):
         names = data_names(N) + (["th", "t"] if transform == "mod" else [])
-        dom, I = e3_interp(tc, names, lazy=True)
+        dom, I = e3_interp(tc, names)
         E = E3(tc, dom, "c04core", {"est": est, "transform": transform, "N": N, "p": p}, tc.seed)
         x = syms(dom, N)
         if transform == "mod":
@@ -114,8 +114,22 @@ def core_task(est, transform, N, p):
             x2 = t_mod(u)(x)
         elif transform == "conj":
             u, x2 = None, t_conj(x)
+        elif transform == "declared":
+            u, x2 = None, None
         else:
             u, x2 = None, t_rev(x)
+        if transform == "declared":
+            # the same real samples, once as a float array and once declared complex (zero imaginary parts)
+            xr = [dom.sym("x%d_r" % j) for j in range(N)]
+            base = E.run(I, lambda I_: call(I_, Arr.from_items(list(xr), dtype="float"), p))
+            new = None if base is None else E.run(I, lambda I_: call(I_, cx_arr(xr), p))
+            if base is None or new is None:
+                return
+            for nm, b, n_ in zip(outs, base, new):
+                bl = _lst(b) if isinstance(b, (Arr, list, tuple)) else [b]
+                nl = _lst(n_) if isinstance(n_, (Arr, list, tuple)) else [n_]
+                E.eq("%s:same-for-real-samples-declared-complex" % nm, [V.Cx.of(v) for v in nl], [V.Cx.of(v) for v in bl])
+            return
         base = E.run(I, lambda I_: call(I_, cx_arr(x), p))
         if base is None:
             return
@@ -145,48 +159,137 @@ def core_task(est, transform, N, p):
 
 
 # ------------------------------------------------------------------------------------------ PSD level (classes)
-CLS = {
-    "pyule": ("spectrum.yulewalker.pyule", lambda p: [p], {}),
-    "pburg": ("spectrum.burg.pburg", lambda p: [p], {}),
-    "pcovar": ("spectrum.covar.pcovar", lambda p: [p], {}),
-    "pmodcovar": ("spectrum.modcovar.pmodcovar", lambda p: [p], {}),
-    "pminvar": ("spectrum.minvar.pminvar", lambda p: [p], {}),
-    "pcorrelogram": ("spectrum.correlog.pcorrelogram", lambda p: [p], {"window": "rectangular"}),
-    "Periodogram": ("spectrum.periodogram.Periodogram", lambda p: [], {"window": "rectangular"}),
+# Modular: the class is checked against the CONTRACT of the estimator it calls, not its body.  The estimator is replaced by a stub that
+#   (1) checks it is handed the object's own data and order, unchanged, and
+#   (2) returns free symbols -- transformed, for the second run, exactly as core.<estimator>.<transform> proves the real estimator's
+#       outputs transform (a_j -> a_j U^j etc.).
+# What remains is the class glue (constructor, __call__, arma2psd / minvar / CORRELOGRAMPSD, FFT placement, side selection), run on the
+# real code with an exact NFFT-point DFT.
+AR_EST = {          # class -> (class qualname, estimator qualname, number of outputs: (ar, scalar[, reflection]))
+    "pyule": ("spectrum.yulewalker.pyule", "spectrum.yulewalker.aryule", 3, "aryule"),
+    "pburg": ("spectrum.burg.pburg", "spectrum.burg.arburg", 3, "arburg"),
+    "pcovar": ("spectrum.covar.pcovar", "spectrum.covar.arcovar", 2, "arcovar"),
+    "pmodcovar": ("spectrum.modcovar.pmodcovar", "spectrum.modcovar.modcovar", 2, "modcovar"),
+    "pminvar": ("spectrum.minvar.pminvar", "spectrum.burg.arburg", 3, "arburg"),
 }
+GLUE = list(AR_EST) + ["pcorrelogram", "Periodogram"]
 CLS_REV_INVARIANT = {"pyule", "pburg", "pmodcovar", "pminvar", "pcorrelogram", "Periodogram"}
 CLS_ONESIDED_TWICE = {"pyule", "pburg", "pcovar", "pmodcovar", "pminvar"}      # the classes the statement names for the real-data clause
 
 
-def run_class(E, I, cname, data, p, NFFT):
-    q, pos, kw = CLS[cname]
-
-    def thunk(I_):
-        o = I_.call(I_.class_ref(q), [data] + pos(p), dict(kw, NFFT=NFFT))
-        I_.call(o, [], {})
-        return I_.getattr(o, "psd")
-    v = E.run(I, thunk)
-    return None if v is None else _lst(v)
+def sqrt_names(NFFT):
+    return (["sqrt3"] if NFFT in (3, 6, 12) else []) + (["sqrt2"] if NFFT == 8 else [])
 
 
-def psd_task(cname, transform, N, p, NFFT):
+def glue_task(cname, transform, p, NFFT, N=4):
+    """transform in mod / conj / rev / real"""
+    if cname == "Periodogram":
+        # fft(x, NFFT) with NFFT < N truncates the data; truncation does not commute with time reversal, and a periodogram that
+        # discards samples is outside the statement (its spectrum is that of the first NFFT samples): N <= NFFT
+        N = min(N, NFFT)
+
     def run(tc):
         cx = transform != "real"
-        names = data_names(N, cx) + (["sqrt3"] if NFFT in (3, 6, 12) else [])
-        dom, I = e3_interp(tc, names, lazy=True)
-        E = E3(tc, dom, "c04psd", {"cls": cname, "transform": transform, "N": N, "p": p, "NFFT": NFFT}, tc.seed)
+        pe = p - 1 if cname == "pminvar" else p          # minvar(X, order) uses the Burg model of order - 1
+        names = data_names(N, cx) + sqrt_names(NFFT) + ["s", "pi"]      # pi: an indeterminate (the 2*pi/df scale factor is common to both runs)
+        if cname in AR_EST:
+            names += sum((["a%d_r" % j, "a%d_i" % j, "k%d_r" % j, "k%d_i" % j] if cx else ["a%d" % j, "k%d" % j] for j in range(pe)), [])
+        elif cname == "pcorrelogram":
+            names += ["r0"] + sum((["r%d_r" % j, "r%d_i" % j] if cx else ["r%d" % j] for j in range(1, p + 1)), [])
+        hints = {"cls": cname, "transform": transform, "N": N, "p": p, "NFFT": NFFT}
+        state = {"want": None, "how": None, "calls": 0, "bad": None}
+
+        def same(a, b):
+            al, bl = _lst(a), list(b)
+            return len(al) == len(bl) and all(dom.equal(V.Cx.of(u), V.Cx.of(w)) for u, w in zip(al, bl))
+
+        def out_seq(base, off, how):
+            if how is None:
+                return list(base)
+            kind, U = how
+            if kind == "mod":
+                return [V.Cx.of(v) * upow(U, j + off) for j, v in enumerate(base)]
+            if kind == "conj":
+                return [V.s_conj(V.Cx.of(v)) for v in base]
+            return list(base)       # rev / declared: unchanged
+
+        def arr(vals, force_cx):
+            if force_cx or any(isinstance(v, Cx) for v in vals):
+                return Arr.from_items([V.Cx.of(v) for v in vals], dtype="complex")
+            return Arr.from_items(list(vals), dtype="float")
+
+        def est_stub(I_, X, order, *rest, **kw):
+            state["calls"] += 1
+            if not same(X, state["want"]):
+                state["bad"] = "the estimator is not handed the object's data unchanged"
+            if not (V.is_conc(order) and int(order) == pe):
+                state["bad"] = "the estimator is called with order %r, expected %d" % (order, pe)
+            how = state["how"]
+            a = [dom.csym("a%d" % j) if cx else dom.sym("a%d" % j) for j in range(pe)]
+            k = [dom.csym("k%d" % j) if cx else dom.sym("k%d" % j) for j in range(pe)]
+            fc = state["force_cx"]
+            outs = (arr(out_seq(a, 1, how), fc), dom.sym("s"), arr(out_seq(k, 1, how), fc))
+            return outs[:AR_EST[cname][2]]
+
+        def xcorr_stub(I_, X, Y=None, maxlags=None, norm="biased", **kw):
+            state["calls"] += 1
+            if not same(X, state["want"]) or (Y is not None and not same(Y, state["want"])):
+                state["bad"] = "xcorr is not handed the object's data unchanged"
+            if not (V.is_conc(maxlags) and int(maxlags) == p):
+                state["bad"] = "xcorr is called with maxlags %r, expected %d" % (maxlags, p)
+            how = state["how"]
+            r = [dom.sym("r0")] + [dom.csym("r%d" % j) if cx else dom.sym("r%d" % j) for j in range(1, p + 1)]
+            r = out_seq(r, 0, how)
+            two = [V.s_conj(V.Cx.of(v)) for v in reversed(r[1:])] + [V.Cx.of(v) for v in r]       # lags -p..p, r[-k] = conj(r[k])
+            fc = state["force_cx"]
+            lags = Arr.from_items([Fraction(j) for j in range(-p, p + 1)], dtype="int")
+            return (arr(two if (cx or fc) else [v.re for v in two], fc), lags)
+
+        stubs = {}
+        if cname in AR_EST:
+            stubs[AR_EST[cname][1]] = est_stub
+        elif cname == "pcorrelogram":
+            stubs["spectrum.correlation.xcorr"] = xcorr_stub
+        dom, I = e3_interp(tc, names, stubs=stubs)
+        E = E3(tc, dom, "c04psd", hints, tc.seed)
         x = syms(dom, N, cx)
+
+        def go(data_list, how, declared_complex=False):
+            state["want"], state["how"], state["bad"] = data_list, how, None
+            state["force_cx"] = declared_complex
+            q = AR_EST[cname][0] if cname in AR_EST else {"pcorrelogram": "spectrum.correlog.pcorrelogram", "Periodogram": "spectrum.periodogram.Periodogram"}[cname]
+            pos = [] if cname in ("Periodogram", "pcorrelogram") else [p]
+            kw = {"NFFT": NFFT}
+            if cname in ("pcorrelogram", "Periodogram"):
+                kw["window"] = "rectangular"
+            if cname == "pcorrelogram":
+                kw["lag"] = p
+            data = arr(data_list, cx or declared_complex) if (cx or declared_complex) else Arr.from_items(list(data_list), dtype="float")
+
+            def thunk(I_):
+                o = I_.call(I_.class_ref(q), [data] + pos, kw)
+                I_.call(o, [], {})
+                return I_.getattr(o, "psd")
+            before = state["calls"]
+            v = E.run(I, thunk)
+            if v is None:
+                return None
+            if cname != "Periodogram":
+                E.ok("calls-the-estimator-once-with-its-own-data-and-order", state["calls"] == before + 1 and state["bad"] is None,
+                     state["bad"] or "%d calls" % (state["calls"] - before))
+            return _lst(v)
+
         if transform == "real":
-            one = run_class(E, I, cname, Arr.from_items(list(x), dtype="float"), p, NFFT)
-            two = run_class(E, I, cname, cx_arr(x), p, NFFT)
+            one = go(list(x), None)
+            two = go([V.Cx.of(v) for v in x], ("declared", None), declared_complex=True)
             if one is None or two is None:
                 return
-            E.ok("real:one-sided-length", len(one) == NFFT // 2 + 1 if NFFT % 2 == 0 else len(one) == (NFFT + 1) // 2, "length %d" % len(one))
+            E.ok("real:one-sided-length", len(one) == (NFFT // 2 + 1 if NFFT % 2 == 0 else (NFFT + 1) // 2), "length %d" % len(one))
             E.ok("complex-declared:two-sided-length", len(two) == NFFT, "length %d" % len(two))
             if len(one) <= len(two):
                 E.eq("one-sided=2*first-half-of-two-sided", one, [2 * v for v in two[:len(one)]])
             return
-        base = run_class(E, I, cname, cx_arr(x), p, NFFT)
+        base = go([V.Cx.of(v) for v in x], None)
         if base is None:
             return
         E.ok("two-sided-length=NFFT", len(base) == NFFT, "length %d" % len(base))
@@ -194,40 +297,48 @@ def psd_task(cname, transform, N, p, NFFT):
             return
         if transform == "mod":
             for m in range(1, NFFT):
-                new = run_class(E, I, cname, cx_arr(t_mod(dom.cis(m, NFFT))(x)), p, NFFT)
+                U = dom.cis(m, NFFT)
+                new = go(t_mod(U)(x), ("mod", U))
                 if new is None:
                     return
                 E.eq("shift-by-%d-bins:psd'[k]=psd[(k-%d) mod NFFT]" % (m, m), new, [base[(k - m) % NFFT] for k in range(NFFT)])
         elif transform == "conj":
-            new = run_class(E, I, cname, cx_arr(t_conj(x)), p, NFFT)
+            new = go(t_conj(x), ("conj", None))
             if new is not None:
                 E.eq("conjugate-data:psd'[k]=psd[-k mod NFFT]", new, [base[(-k) % NFFT] for k in range(NFFT)])
         else:
-            new = run_class(E, I, cname, cx_arr(t_rev(x)), p, NFFT)
+            new = go(t_rev(x), ("rev", None))
             if new is not None:
                 E.eq("conjugated-time-reversed-data:same-spectrum", new, base)
-    return Task("psd.%s.%s.N%d.p%d.NFFT%d" % (cname, transform, N, p, NFFT), run, kind="bounded", prerun=True, timeout=150,
-                functions=[CLS[cname][0] + ".__call__"])
+    q = AR_EST[cname][0] if cname in AR_EST else {"pcorrelogram": "spectrum.correlog.pcorrelogram", "Periodogram": "spectrum.periodogram.Periodogram"}[cname]
+    return Task("glue.%s.%s.p%d.NFFT%d" % (cname, transform, p, NFFT), run, kind="bounded", prerun=True, timeout=150, functions=[q + ".__call__"])
 
 
 def tasks(tier):
     ts = []
     th = tier == "thorough"
     for est in EST:
-        for tr in ("mod", "conj", "rev"):
+        for tr in ("mod", "conj", "rev", "declared"):
             if tr == "rev" and est not in REV_INVARIANT:
                 continue
-            for (N, p) in ([(4, 1), (5, 2)] if not th else [(4, 1), (5, 2), (6, 2)]):
+            for (N, p) in CORE_SIZES[tier]:
+                if N >= 5 and est in ("aryule", "arburg"):
+                    continue        # 250-360 s each in Q(10 data symbols + angle): not attempted (no result within the pool time-out on a loaded machine)
                 ts.append(core_task(est, tr, N, p))
-    for cname in CLS:
-        for NFFT in ((3, 4) if not th else (3, 4, 6)):
-            for p in ((1,) if not th else (1, 2)):
-                if cname == "Periodogram" and p != 1:
+    for cname in GLUE:
+        for NFFT in ((3, 4, 6) if not th else (3, 4, 6, 8, 12)):
+            for p in ((2,) if not th else (2, 3)):
+                if cname == "Periodogram" and p != 2:
                     continue
+                if cname != "Periodogram" and p >= NFFT:
+                    continue        # outside the domain: arma2psd cannot hold p+1 coefficients in an NFFT-point buffer (IndexError)
                 for tr in ("mod", "conj", "rev", "real"):
                     if tr == "rev" and cname not in CLS_REV_INVARIANT:
                         continue
                     if tr == "real" and cname not in CLS_ONESIDED_TWICE:
                         continue
-                    ts.append(psd_task(cname, tr, 4, p, NFFT))
+                    ts.append(glue_task(cname, tr, p, NFFT))
     return ts
+
+
+CORE_SIZES = {"quick": [(4, 1)], "thorough": [(4, 1), (5, 1)]}
